@@ -1690,3 +1690,88 @@ def _batch10() -> Dict[str, List[V]]:
 
 for _pid, _vs in _batch10().items():
     REGISTRY[_pid] = _merged(REGISTRY[_pid], (lambda vs: (lambda: vs))(_vs))
+
+
+# --------------------------------------------------------------------------------------------------------------------
+# batch 11: the mechanisms of round 7
+def _batch11() -> Dict[str, List[V]]:
+    CS = "conclusion_selector"
+    parent = [
+        V("eval-parent-not-wiped-by-the-reset", S, "SymbolicExpression._reset_only_my_cache_", "        self._eval_parent_ = None\n", "", rule="EVAL-PARENT-RESET"),
+        V("for-all-does-not-tell-its-operands", S, "ForAll._evaluate__", "        self.variable._eval_parent_ = self\n        self.condition._eval_parent_ = self\n", "", rule="EVAL-PARENT-SET"),
+        V("predicate-argument-not-told-who-evaluates-it", S, "Variable._bind_child_vars_", "        var._eval_parent_ = self\n", "", rule="EVAL-PARENT-SET"),
+        V("parent-asked-about-the-child", S, "ResultQuantifier._required_variables_from_child_", "vars = self._parent_._required_variables_from_child_(self, when_true=when_true)",
+          "vars = self._parent_._required_variables_from_child_(child, when_true=when_true)", rule="REQUIRED-ASK-AS-SELF"),
+    ]
+    dedup = [
+        V("duplicate-test-on-the-left-row", S, "ElseIf._evaluate__", "                                if self._is_duplicate_output_(output):\n                                    continue\n                            self.update_cache(right_value, self.right_cache)",
+          "                                if self._is_duplicate_output_(left_value):\n                                    continue\n                            self.update_cache(right_value, self.right_cache)", rule="DEDUP-TESTS-YIELDED-ROW"),
+        V("bound-again-comparison-falls-through", S, "Comparator._evaluate__", "            if yield_when_false or not self._is_false_:\n                yield sources\n            return\n",
+          "            if yield_when_false or not self._is_false_:\n                yield sources\n", rule="BOUND-AGAIN-ONCE"),
+        V("and-replay-suppresses-true-duplicates", S, "AND._evaluate__", "yield from self.yield_final_output_from_cache(left_value, self.right_cache,\n                                                                  yield_when_false=yield_when_false)",
+          "yield from self.yield_final_output_from_cache(left_value, self.right_cache, suppress_true_duplicates=True,\n                                                                  yield_when_false=yield_when_false)", rule="REPLAY-DEDUP"),
+        V("predicate-rows-filtered-by-the-stored-request", S, "Variable._evaluate__", "                    if yield_when_false or not self._is_false_:\n                        yield v\n",
+          "                    if self._yield_when_false_ or not self._is_false_:\n                        yield v\n", rule="REENTRANT-FLAG"),
+    ]
+    record = [
+        V("record-emptied-when-the-source-is-exhausted", HD, "HashedIterable.__iter__", "                if position >= len(self.pulled):\n                    return",
+          "                if position >= len(self.pulled):\n                    self.pulled.clear()\n                    return", rule="PULLED-RECORD"),
+        V("added-value-recorded-as-pulled", HD, "HashedIterable.add", "            self.values[value.id_] = value\n", "            self.values[value.id_] = value\n            self.pulled.append(value)\n", rule="PULLED-RECORD"),
+        V("stores-read-one-after-the-other", CD, "yield_class_values_from_cache", "    found = [list(cache[t].retrieve(assignment, from_index=from_index)) for t in cache_keys]\n    for rows in found:\n        yield from rows\n",
+          "    for t in cache_keys:\n        yield from cache[t].retrieve(assignment, from_index=from_index)\n", rule="REG-SNAPSHOT"),
+        V("twin-stores-read-in-a-loop-first", CD, "yield_class_values_from_cache", "    found = [list(cache[t].retrieve(assignment, from_index=from_index)) for t in cache_keys]\n",
+          "    found = []\n    for t in cache_keys:\n        found.append(list(cache[t].retrieve(assignment, from_index=from_index)))\n", kind="twin"),
+    ]
+    lazy_ = [
+        V("required-variables-iterate-a-variable", S, "QueryObjectDescriptor._required_variables_from_child_", "        required_vars.update(self.selected_variables)\n        for var in self.selected_variables:\n",
+          "        for var in self.selected_variables:\n            required_vars.update(var)\n", rule="EXPRESSION-NOT-ITERATED"),
+    ]
+    tree = [
+        V("refinement-slot-chosen-by-equality", "rule", "refinement", "if prev_parent.left is current_node:", "if prev_parent.left == current_node:", rule="EXPR-IDENTITY"),
+        V("node-looked-up-among-ancestors-by-equality", S, "Variable._replace_expression_with_", "if not any(new_expression._node_ is ancestor for ancestor in p.ancestors)]", "if new_expression._node_ not in p.ancestors]", rule="EXPR-IDENTITY"),
+        V("conclusions-of-the-children-only", S, "SymbolicExpression._conclusions_of_all_descendants_", "for child in self._descendants_ for conc", "for child in self._children_ for conc", rule="DEDUP-CONCLUSIONS"),
+        V("refinement-does-not-take-back", CS, "ExceptIf._evaluate__", "                if not right_yielded and isinstance(self.left, ConclusionSelector):\n                    # the refinement fires: what the refined branch selected for this row is not drawn.\n                    self.left._take_back_conclusions_of_this_row_()\n", "",
+          rule="CONCLUDED-WHEN-KEPT"),
+        V("refinement-rows-keyed-by-the-conclusions-only", CS, "ExceptIf._required_variables_from_child_", "                required_vars.update(self.left._unique_variables_)\n", "", rule="REFINEMENT-PER-ROW"),
+        V("conclusion-marks-the-variable-it-is-drawn-on", "conclusion", "Conclusion.__post_init__", "        self.value._is_inferred_ = True\n", "        self.value._is_inferred_ = True\n        self.var._var_._is_inferred_ = True\n", rule="INFER-MARK"),
+        V("already-inferred-variable-recorded-for-un-marking", S, "QueryObjectDescriptor._inform_selected_variables_that_they_should_be_inferred_",
+          "if not isinstance(selected_variable, Variable) or selected_variable._is_inferred_:", "if not isinstance(selected_variable, Variable):", rule="INFER-MARK"),
+        V("implicit-predicate-not-linked", PR, "update_query_child_expression_if_in_query_context", "        node._child_._update_child_()\n", "", rule="SLOT-STORE-LINKED"),
+    ]
+    subq = [
+        V("sub-query-a-conjunct-only-when-it-has-conditions", "entity", "_extract_variables_and_expression", "            expression_list.append(result_quantifier)\n",
+          "            if result_quantifier._child_._child_ is not None:\n                expression_list.append(result_quantifier)\n", rule="QUANT-NOT-STRIPPED"),
+        V("short-form-drops-the-conditions", "entity", "select_one_or_select_many_or_infer", "q = quantifier(set_of(entity_, *properties))", "q = quantifier(set_of(entity_))", rule="CONDITIONS-FORWARDED"),
+    ]
+    vars_ = [
+        V("variables-of-variable-arguments-only", S, "Variable._all_variable_instances_", "            variables.extend(v._all_variable_instances_)\n", "            if isinstance(v, Variable):\n                variables.extend(v._all_variable_instances_)\n", rule="VARS-COMPLETE"),
+        V("concatenation-counts-itself", S, "Concatenate._all_variable_instances_", "        return self._child_._all_variable_instances_\n", "        return self._child_._all_variable_instances_ + [self]\n", rule="VARS-COMPLETE"),
+        V("for-all-key-only-for-true-rows", S, "ForAll._required_variables_from_child_", "        if child is self.right:\n", "        if child is self.right and when_true:\n", rule="FORALL-KEY"),
+    ]
+    ident = [
+        V("literal-copies-container-constants", S, "Literal.__init__", "        data = [data]\n", "        data = [copy(data) if is_iterable(data) else data]\n", rule="ID-KEEP"),
+        V("positional-names-keyed-by-the-class-name", PR, "update_domain_and_kwargs_from_args", "init_args = cls_args[symbolic_cls]", "init_args = cls_args[symbolic_cls.__qualname__]", rule="CLS-ARGS-SIGNATURE"),
+    ]
+    return {
+        "C01": parent + dedup + record[:2],
+        "C02": parent + dedup[:3] + subq + vars_[:1],
+        "C03": dedup[3:],
+        "C04": parent[:2] + record + tree[6:7],
+        "C05": dedup[:1] + dedup[2:3],
+        "C06": dedup[:1],
+        "C07": record[:2] + lazy_,
+        "C10": parent[:2] + vars_,
+        "C11": record + vars_[:1] + ident[:1] + tree[1:2],
+        "C12": tree,
+        "C13": ident[1:],
+        "C14": record + tree[1:2] + tree[5:6] + tree[7:],
+        "C15": parent[2:] + dedup[1:2] + dedup[3:] + subq[:1],
+        "C16": tree[:1] + dedup[2:3],
+        "C17": subq[1:] + vars_[1:2],
+        "C18": dedup[3:] + subq + vars_[2:],
+        "C19": dedup[3:],
+    }
+
+
+for _pid, _vs in _batch11().items():
+    REGISTRY[_pid] = _merged(REGISTRY[_pid], (lambda vs: (lambda: vs))(_vs))
